@@ -403,10 +403,13 @@ def _plan(name, tier):
     ba = {1: ("pos", pts[2]), 2: ("pos", pts[3])}
     if tier == "quick" and name in COSTLY:
         return [("scalar", sc, False, None, "short"), ("batched", ba, False, None, "short")]
+    # sample_shape chosen so that the value shapes coincide with the batched history (fewer distinct XLA signatures)
+    import numpy as _np
+    ss1 = (3,) if _np.ndim(pts[2][0]) == 1 and _np.ndim(pts[0][0]) == 0 else (2,)
     mask = "+mask" if (tier != "quick" or name in MASKGEN_QUICK) else ""
     plan = [("scalar", sc, True, None, "full" + mask),
             ("batched", ba, True, None, "medium" + ("+mask" if tier != "quick" else "")),
-            ("sampleshape", sc, False, (2,), "short")]
+            ("sampleshape", sc, False, ss1, "short")]
     if tier == "thorough":
         plan.append(("batchedsampleshape", ba, False, (2, 2), "medium"))
     for j, kwp in enumerate(row.get("kwonly", [])):
@@ -446,6 +449,34 @@ def _history_events(task):
         import traceback
         err = f"{name}/{tag}: {type(ex).__name__}: {str(ex)[:300]}\n{traceback.format_exc()[-800:]}"
     return dict(name=name, tag=tag, events=ev, wall=time.time() - t0, error=err)
+
+
+# Static work split: one worker process per group.  In the quick tier (jax_disable_jit) almost all the time goes into
+# XLA-compiling each primitive signature once per process, so wrappers that share their arithmetic are kept together;
+# groups are balanced with measured per-wrapper costs.
+GROUPS = [
+    ["beta_quotient"], ["dirichlet_multinomial"], ["multinomial"], ["beta_binomial", "binomial"],
+    ["von_mises_fisher", "power_spherical", "von_mises"], ["dirichlet", "beta", "kumaraswamy"],
+    ["non_central_chi2", "chi", "chi2"], ["skellam", "poisson", "zipf", "double_sided_maxwell"],
+    ["mv_normal", "mv_normal_diag", "lambert_w_normal"], ["negative_binomial", "bernoulli", "geometric", "flip"],
+    ["half_student_t", "student_t", "half_cauchy", "half_normal", "cauchy"],
+    ["gamma", "exp_gamma", "inverse_gamma", "exp_inverse_gamma"],
+    ["moyal", "uniform", "truncated_normal", "truncated_cauchy"],
+    ["exponential", "weibull", "gumbel", "logit_normal", "normal", "laplace", "log_normal"], ["categorical"],
+]
+
+
+def _group_events(task):
+    """All histories of the wrappers of one group, in one process.  task = (names, seed, tier)."""
+    names, seed, tier = task
+    out = []
+    order = sorted(TABLE)
+    for name in names:
+        for n in range(len(_plan(name, tier))):
+            out.append(_history_events((name, n, seed, tier, 100 * (order.index(name) + 1) + n)))
+            if out[-1]["error"]:
+                return out
+    return out
 
 
 def _wrapper_events(task):
@@ -491,9 +522,6 @@ CHECK_DEADLOCK FALSE
 MAIN_CLAUSES = ("C24.run", "C24.score", "C24.weight", "C24.value", "C24.support", "C24.dtype", "C24.shape", "C24.kwargs")
 ACTIONS = ("Simulate", "Assess", "Generate", "Update", "Regenerate", "Project", "Undo")
 # rough relative cost of a history (rejection samplers / special functions are slow to compile): heavy first
-HEAVY = ("gamma", "beta", "chi", "dirichlet", "student", "binomial", "poisson", "skellam", "multinomial", "von_mises",
-         "power_spherical", "zipf", "maxwell", "lambert", "non_central")
-
 
 def run(prop_id, tier, seed, replay=None):
     rep = vlib.Report(prop_id, tier, seed)
@@ -507,16 +535,14 @@ def run(prop_id, tier, seed, replay=None):
     if only:
         names = [n for n in names if n in only.split(",")]
         rep.extra["restricted_to"] = names
-    tasks = []
-    for i, n in enumerate(names):
-        for j in range(len(_plan(n, tier))):
-            tasks.append((n, j, seed, tier, 100 * (sorted(TABLE).index(n) + 1) + j))
-    tasks.sort(key=lambda t: (0 if any(h in t[0] for h in HEAVY) else 1, t[1]))
+    groups = [[n for n in g if n in names] for g in GROUPS]
+    groups += [[n] for n in names if not any(n in g for g in GROUPS)]
+    tasks = [(g, seed, tier) for g in groups if g]
     import concurrent.futures as cf
     disable_jit = tier == "quick"
     ex = cf.ProcessPoolExecutor(max_workers=min(vlib.NCPU, len(tasks)), mp_context=mp.get_context("spawn"),
                                 initializer=_init_worker, initargs=(disable_jit,))
-    futs = {ex.submit(_history_events, t): t for t in tasks}
+    futs = {ex.submit(_group_events, t): t for t in tasks}
 
     def _abort():
         for f in futs:
@@ -550,9 +576,9 @@ def run(prop_id, tier, seed, replay=None):
     results = []
     try:
         for f in cf.as_completed(futs, timeout=1200 if tier == "quick" else 5400):
-            results.append(f.result())
+            results += f.result()
     except cf.TimeoutError:
-        pending = [futs[f][:2] for f in futs if not f.done()]
+        pending = [futs[f][0] for f in futs if not f.done()]
         _abort()
         raise vlib.MachineryError(f"driver timed out; unfinished histories: {pending[:20]}")
     except Exception as e:   # BrokenProcessPool: a worker died (out of memory?)
